@@ -1,7 +1,7 @@
 """Source of MANIFEST.json (bin/mkmanifest renders it). One entry per claimed property."""
 
 HOOK_COMMITS = ["f529e9d", "ae52c2c"]
-FIX_COMMITS = ["c71e8ce", "b266a7b", "3c8b2f5", "8a433c1", "8c9bd77", "b6b128e", "d4a32a0"]
+FIX_COMMITS = ["c71e8ce", "b266a7b", "3c8b2f5", "8a433c1", "8c9bd77", "b6b128e", "d4a32a0", "05b2e41", "7858fec", "23c0ca4", "3feca11", "c1f5fc8"]
 
 CHECKS = {
     "C19": dict(
@@ -118,6 +118,27 @@ CHECKS = {
              "re-derivation checks in the same event).",
         note="Trusted: as C03; the exact answer is the library's unbounded next_change.",
         design_ref="8/C16",
+    ),
+    "C05": dict(
+        category="other",
+        technique="TLA+ grammar specification (Grammar.tla: spelling of every AST node under each documented relaxation + denotation); TLC enumerates bounded families of sentences with the AST they denote and checks the generator unambiguous; the real parser is run on every sentence",
+        text="Bounded-exhaustive to the stated families: every selector kind and syntactic variant alone (years, months, dates with offsets / "
+             "Easter / plus / day-number end bound, weeks, weekdays with nth / offsets / holidays, fixed / extended / wrapping / event / "
+             "open-ended / repeated spans), pairs and triples of selector kinds, every modifier x comment combination, rule sequences <= 3 "
+             "with every separator, each under 11 spelling variants (padding, off/closed, ':' / ': ' / ' ' after wide selectors, ';' forms, "
+             "' - ', 'Jan1', 'week1'): ~3000 sentences whose AST must equal the denoted one field by field, plus 56 single-field corruptions "
+             "and unsupported constructs that must return Err.",
+        note="Trusted: TLC's evaluation of Grammar.tla; the grammar as transcribed from grammar.pest (no OSM wiki offline); comment-only rule kind not compared.",
+        design_ref="8/C05",
+    ),
+    "C06": dict(
+        category="translation_validation",
+        technique="Grammar.tla / Gen_Grammar sentences + corpus + random expressions and their normal forms are printed and reparsed by the real code; Trace_Print (TLC) validates reparse success and equality of both evaluations on probe days, with DayEval.tla evaluating both ASTs as a diagnostic",
+        text="Each (expression | normal form) is a translated program: to_string then parse. TLC requires: the printed form parses; the "
+             "reparsed expression has the same tiling on every probe day (days straddle every selector bound of both expressions, range "
+             "bounds, random days) in holiday / sun-event contexts; comments equal up to joining.",
+        note="Trusted: the library's own evaluation as the oracle (differential); equivalence is decided on probe days only.",
+        design_ref="8/C06",
     ),
 }
 
